@@ -37,4 +37,7 @@ MUTANTS = [
     m("c14-twin-alias", None, WB, "            for i, _, rng_state in indexed_chain_outputs:\n                chain_rng = per_chain_kwargs[i][\"rng\"]\n                chain_rng.bit_generator.state = rng_state\n", twin=True),
     m("c14-twin-sorted", None, "            indexed_chain_outputs.sort(key=lambda indexed_output: indexed_output[0])\n            chain_outputs = [outp for _, outp, _ in indexed_chain_outputs]", "            indexed_chain_outputs = sorted(indexed_chain_outputs, key=lambda item: item[0])\n            chain_outputs = [outp for _, outp, _ in indexed_chain_outputs]", twin=True),
     m("c14-single-chain-shortcut", "R1", "    if bit_generator is not None and hasattr(bit_generator, \"jumped\"):\n        return [default_rng(bit_generator.jumped(i)) for i in range(n_chain)]", "    if bit_generator is not None and n_chain == 1:\n        return [default_rng(bit_generator)]\n    if bit_generator is not None and hasattr(bit_generator, \"jumped\"):\n        return [default_rng(bit_generator.jumped(i)) for i in range(n_chain)]", key="branch-on-chain-count"),
+    m("c14-writeback-only-without-exception", "R4", WB, '            if exception is None:\n                for i, _, rng_state in indexed_chain_outputs:\n                    per_chain_kwargs[i]["rng"].bit_generator.state = rng_state\n'),
+    m("c14-writeback-skips-first", "R4", WB, '            for i, _, rng_state in indexed_chain_outputs[1:]:\n                per_chain_kwargs[i]["rng"].bit_generator.state = rng_state\n'),
+    m("c14-twin-writeback-unpack-all", None, WB, '            for indexed_output in indexed_chain_outputs:\n                i, _, rng_state = indexed_output\n                per_chain_kwargs[i]["rng"].bit_generator.state = rng_state\n', twin=True),
 ]
